@@ -48,6 +48,7 @@ NuSpaceSim Simulation
 
 from __future__ import annotations
 
+import os
 from typing import Any, Iterable
 
 import numpy as np
@@ -163,6 +164,13 @@ def compute(
         else RegionGeom(config)
     )
 
+    def write_staged():
+        # Write under a scratch name, then rename: a failed or interrupted write
+        # must not destroy the file holding the stages completed so far.
+        scratch = f"{output_file}.part"
+        sim.write(scratch, format="fits", overwrite=True)
+        os.replace(scratch, output_file)
+
     class StagedWriter:
         """Optionally write intermediate values to file"""
 
@@ -175,12 +183,12 @@ def compute(
         ):
             sim.add_columns(columns, names=col_names, *args, **kwargs)
             if write_stages:
-                sim.write(output_file, format="fits", overwrite=True)
+                write_staged()
 
         def add_meta(self, name: str, value: Any, comment: str):
             sim.meta[name] = (value, comment)
             if write_stages:
-                sim.write(output_file, format="fits", overwrite=True)
+                write_staged()
 
     sw = StagedWriter()
 
